@@ -180,3 +180,8 @@ pub fn no_attrs() -> (r: Vec<Attribute>) ensures r == m0_no_attrs(), r@.len() ==
 pub open spec fn erred(tb: TreeBuilder) -> TreeBuilder { TreeBuilder { sink: Sink { errs: Ghost(tb.sink.errs@ + 1), ..tb.sink }, ..tb } }
 /// "drop the attributes from the </br> token and act as for a <br> start tag"
 pub open spec fn br_start(tag: Tag) -> Token { Token::Tag(Tag { kind: TagKind::StartTag, attrs: m0_no_attrs(), ..tag }) }
+/// the number of entries "reconstruct the active formatting elements" re-creates (and pushes on the stack): none if the list is empty
+/// or its last entry is a marker or an open element; otherwise the entries after the last marker-or-open entry
+pub open spec fn recon_count(l: Seq<FormatEntry>, st: Seq<Handle>) -> int {
+    if l.len() == 0 || entry_open(l[l.len() - 1], st) { 0 } else { l.len() - rewind_to(l, l.len() as int, st) }
+}
